@@ -35,6 +35,9 @@ pub struct Shared {
     /// re-entry program of the hostile contract: calls it makes (as sub-transactions whose failure it
     /// swallows) the first time the marketplace sends it a transfer during the current operation
     pub reentry: Vec<Value>,
+    /// set when the program ran: its length; and the indices of the calls that failed (reported to `reply`)
+    pub reentry_ran: Option<usize>,
+    pub reentry_failed: Vec<usize>,
 }
 
 pub type SharedRef = Rc<RefCell<Shared>>;
@@ -629,6 +632,8 @@ impl World {
         {
             let mut sh = self.shared.borrow_mut();
             sh.last_msgs.clear();
+            sh.reentry_ran = None;
+            sh.reentry_failed.clear();
             sh.market_calls = 0;
             sh.panicked = false;
             sh.fail_idx = fail_msg.map(|x| x as usize);
@@ -651,8 +656,13 @@ impl World {
         let emitted = sh.last_msgs.len();
         let msgs = if outcome == "ok" { sh.last_msgs.clone() } else { vec![] };
         let calls = sh.market_calls;
+        // outcomes of the re-entrant calls, when the program ran in a transaction that went through
+        let nested = match (outcome, sh.reentry_ran) {
+            ("ok", Some(n)) => Value::Array((0..n).map(|k| Value::Bool(!sh.reentry_failed.contains(&k))).collect()),
+            _ => Value::Null,
+        };
         drop(sh);
-        json!({"outcome": outcome, "err": err, "msgs": msgs, "emitted": emitted, "market_calls": calls, "obs": self.observe()})
+        json!({"outcome": outcome, "err": err, "msgs": msgs, "emitted": emitted, "market_calls": calls, "nested": nested, "obs": self.observe()})
     }
 
     pub fn run_queries(&self, req: &Value) -> Value {
